@@ -35,6 +35,8 @@ pub enum CutKind {
     Reset,
     Aborted,
     BrokenPipe,
+    /// the read fails with `TimedOut` (a socket with a read timeout whose peer went silent)
+    TimedOut,
 }
 
 struct ScriptState {
@@ -232,5 +234,7 @@ fn vanish(kind: CutKind) -> Starve {
         CutKind::Reset => Starve::Abort(ErrorKind::ConnectionReset),
         CutKind::Aborted => Starve::Abort(ErrorKind::ConnectionAborted),
         CutKind::BrokenPipe => Starve::Abort(ErrorKind::BrokenPipe),
+        // (a read error only: the sending direction keeps working)
+        CutKind::TimedOut => Starve::Error(ErrorKind::TimedOut),
     }
 }
